@@ -4,8 +4,9 @@
 set -u
 export GOFLAGS=-mod=mod GOPROXY=off GOSUMDB=off GOTOOLCHAIN=local
 id=$1; v=$2; base=$3
-src=/tmp/seed-out/$id
-dst=/verif/seeded/$id-$v
+src=${SEED_SRC:-/tmp/seed-out}/$id
+name=${SEED_NAME:-$id-$v}
+dst=/verif/seeded/$name
 log=/tmp/adopt-$id-$v.log
 : > $log
 patch=$src/$v.patch.diff
@@ -15,7 +16,7 @@ if [ ! -s "$reb" ]; then
   if git -C /repo apply --check "$patch" 2>/dev/null; then cp "$patch" "$reb";
   else /verif/tools/rebase_seed.sh "$patch" "$base" "$reb" >>$log 2>&1 || { echo "$id-$v: REBASE CONFLICT (see $log)"; exit 4; }; fi
 fi
-wt=/tmp/wt-adopt-$id-$v
+wt=/tmp/wt-adopt-$name
 git -C /repo worktree add -q --detach "$wt" "$head" >>$log 2>&1 || exit 2
 cd "$wt"
 demo=$src/${v}_demo_test.go
@@ -40,7 +41,7 @@ if [ $res_build = pass ] && [ $res_suite = pass ] && [ $res_demo_without = pass 
 import json,sys
 id,v,head,dst=sys.argv[1:]
 notes=open(dst+"/notes.md").read()
-meta={"name":f"{id}-{v}","breaks_property":id,"origin":"independent sub-agent given only the property text and a scratch worktree",
+meta={"name":dst.rsplit("/",1)[1],"breaks_property":id,"origin":"independent sub-agent given only the property text and a scratch worktree",
  "patch_against_repo_commit":head,
  "needs_to_manifest":"see notes.md (written by the sub-agent)",
  "confirmed":{"build":"pass","existing_suite_with_change":"pass","demo_without_change":"pass","demo_with_change":"fail",
